@@ -41,6 +41,21 @@ METHODS = {
     "reshape": ["{a}.reshape(3, 2)", "{a}.reshape((3, 2))", "mg.reshape({a}, (3, 2))", "np.reshape({a}, (3, 2))"],
     "transpose": ["{a}.T", "{a}.transpose()", "{a}.transpose(1, 0)", "{a}.transpose((1, 0))", "mg.transpose({a})", "np.transpose({a})", "mg.transpose({a}, 1, 0)"],
     "swapaxes": ["{a}.swapaxes(0, 1)", "mg.swapaxes({a}, 0, 1)", "np.swapaxes({a}, 0, 1)"],
+    # axes given from the end, alone and mixed with axes given from the front; options passed to methods
+    "transpose/neg": ["{a}.transpose(-1, 0)", "{a}.transpose((-1, 0))", "mg.transpose({a}, (-1, 0))", "np.transpose({a}, (-1, 0))", "mg.transpose({a}, -1, 0)", "{a}.T", "{a}.transpose(-1, -2)"],
+    "transpose/3d-mixed": ["{a}.reshape(1, 2, 3).transpose(0, -1, 1)", "{a}.reshape(1, 2, 3).transpose((0, -1, 1))", "mg.transpose({a}.reshape(1, 2, 3), (0, -1, 1))",
+                           "np.transpose({a}.reshape(1, 2, 3), (0, -1, 1))", "mg.swapaxes({a}.reshape(1, 2, 3), 1, 2)", "{a}.reshape(1, 2, 3).transpose(0, 2, 1)"],
+    "transpose/3d-cube-mixed": ["{a}[:, :2].reshape(2, 2, 1).transpose(-2, 0, -1)", "mg.transpose({a}[:, :2].reshape(2, 2, 1), (-2, 0, -1))", "np.transpose({a}[:, :2].reshape(2, 2, 1), (-2, 0, -1))",
+                                "{a}[:, :2].reshape(2, 2, 1).transpose(1, 0, 2)"],
+    "swapaxes/neg": ["{a}.swapaxes(-1, 0)", "mg.swapaxes({a}, -1, 0)", "np.swapaxes({a}, -1, 0)", "{a}.T"],
+    "moveaxis/neg": ["{a}.moveaxis(-1, 0)", "mg.moveaxis({a}, -1, 0)", "np.moveaxis({a}, -1, 0)", "{a}.T"],
+    "sum/neg": ["{a}.sum(axis=-1)", "mg.sum({a}, axis=-1)", "np.sum({a}, axis=-1)", "{a}.sum(axis=1)", "{a}.sum(-1)"],
+    "sum/tuple+keepdims": ["{a}.sum(axis=(0, -1), keepdims=True)", "mg.sum({a}, axis=(0, -1), keepdims=True)", "np.sum({a}, axis=(0, -1), keepdims=True)", "{a}.sum(keepdims=True)"],
+    "std/ddof": ["{a}.std(axis=0, ddof=1)", "mg.std({a}, axis=0, ddof=1)", "np.std({a}, axis=0, ddof=1)", "{a}.std(0, 1)"],
+    "var/keepdims": ["{a}.var(axis=1, keepdims=True)", "mg.var({a}, axis=1, keepdims=True)", "np.var({a}, axis=1, keepdims=True)", "{a}.var(1, 0, True)"],
+    "max/keepdims": ["{a}.max(axis=-1, keepdims=True)", "mg.max({a}, axis=-1, keepdims=True)", "np.max({a}, axis=-1, keepdims=True)", "{a}.max(1, True)"],
+    "prod/keepdims": ["{a}.prod(axis=0, keepdims=True)", "mg.prod({a}, axis=0, keepdims=True)", "np.prod({a}, axis=0, keepdims=True)", "{a}.prod(0, True)"],
+    "mean/neg": ["{a}.mean(axis=-2)", "mg.mean({a}, axis=-2)", "np.mean({a}, axis=-2)", "{a}.mean(0)"],
     "moveaxis": ["{a}.moveaxis(0, 1)", "mg.moveaxis({a}, 0, 1)", "np.moveaxis({a}, 0, 1)"],
     "squeeze": ["{a}[None].squeeze()", "mg.squeeze({a}[None])", "np.squeeze({a}[None])", "{a}[None].squeeze(axis=0)"],
     "ravel": ["{a}.ravel()", "mg.ravel({a})", "np.ravel({a})", "{a}.flatten()", "{a}.reshape(-1)"],
@@ -56,7 +71,7 @@ METHODS = {
     "norm": ["mg.linalg.norm({a}, axis=1)", "np.linalg.norm({a}, axis=1)"],
     "atleast_2d": ["mg.atleast_2d({b})", "np.atleast_2d({b})"],
 }
-POSITIVE_DOMAIN = {"log", "log2", "log10", "log1p", "sqrt", "power", "arccosh", "prod", "cumprod", "divide", "reciprocal", "norm", "std"}
+POSITIVE_DOMAIN = {"std/ddof", "prod/keepdims", "log", "log2", "log10", "log1p", "sqrt", "power", "arccosh", "prod", "cumprod", "divide", "reciprocal", "norm", "std"}
 
 
 def cases(tier):
